@@ -129,6 +129,9 @@ func boundFromSearch(v ssa.Value, x ssa.Value, depth int) bool {
 		if strings.HasPrefix(n, "strings.Index") || strings.HasPrefix(n, "strings.LastIndex") || strings.HasPrefix(n, "bytes.Index") || strings.HasPrefix(n, "bytes.LastIndex") {
 			return true
 		}
+		if calleeSearchesParam(t, x) {
+			return true
+		}
 	case *ssa.Extract:
 		if _, ok := t.Tuple.(*ssa.Next); ok {
 			return true
@@ -153,6 +156,59 @@ func boundFromSearch(v ssa.Value, x ssa.Value, depth int) bool {
 		return len(t.Edges) > 0
 	}
 	return false
+}
+
+// calleeSearchesParam: the call hands the sliced value x to a module function
+// with one integer result, and every result of that function is a constant
+// or a position in the corresponding parameter: found by a search in it, or a
+// counter returned under the test counter < len(parameter).
+func calleeSearchesParam(call *ssa.Call, x ssa.Value) bool {
+	sc := call.Call.StaticCallee()
+	if sc == nil || !IsModuleFunc(sc) || sc.Blocks == nil || sc.Signature.Results().Len() != 1 || sc.Signature.Recv() != nil {
+		return false
+	}
+	j := -1
+	for i, a := range call.Call.Args {
+		if a == x || sameValue(a, x) {
+			j = i
+		}
+	}
+	if j < 0 || j >= len(sc.Params) {
+		return false
+	}
+	p := sc.Params[j]
+	nret := 0
+	for _, b := range sc.Blocks {
+		ret, ok := b.Instrs[len(b.Instrs)-1].(*ssa.Return)
+		if !ok {
+			continue
+		}
+		nret++
+		res := ret.Results[0]
+		if _, isK := res.(*ssa.Const); isK {
+			continue
+		}
+		if boundFromSearch(res, p, 1) {
+			continue
+		}
+		guarded := false
+		for _, g := range GuardsAt(b) {
+			cond, pol := stripNot(g.Cond, g.Polarity)
+			cmp, ok := cond.(*ssa.BinOp)
+			if !ok || !pol || cmp.Op != token.LSS || cmp.X != res {
+				continue
+			}
+			if ln, ok := cmp.Y.(*ssa.Call); ok {
+				if bi, ok := ln.Call.Value.(*ssa.Builtin); ok && bi.Name() == "len" && ln.Call.Args[0] == ssa.Value(p) {
+					guarded = true
+				}
+			}
+		}
+		if !guarded {
+			return false
+		}
+	}
+	return nret > 0
 }
 
 func c18LookAhead(c *Ctx, r *Report) {
